@@ -526,6 +526,11 @@ Definition create_column (s : coll) (id : N) (col : column) (is_key : bool) : co
                    (keys s) (nextid s) (emitted s)
   end.
 
+(* Collection.DropColumn: the column leaves the registry (collection.go:208, columns.DeleteColumn);
+   exercised on columns no index, trigger or sorted index hangs off and that are not the key *)
+Definition drop_column (s : coll) (id : N) : coll :=
+  mkcoll (fill s) (count s) (delete id (cols s)) (comps s) (pk s) (keys s) (nextid s) (emitted s).
+
 Definition build_computed (s : coll) (target : N) (x : computed) : computed :=
   let cs := match cols s !! target with Some col => cells col | None => ∅ end in
   match x with
